@@ -16,6 +16,17 @@
 using namespace vf;
 namespace vf { std::vector<TypeOps>& registry() { static std::vector<TypeOps> r; return r; } }
 
+// ---------------------------------------------------------------- interposed close(2)
+// Counts the close() calls made on one watched descriptor and can answer one of them with EINTR *after* really closing the descriptor - which
+// is what Linux does: the descriptor is released even when close() is interrupted, so closing "again" closes whatever reuses the number.
+#include <sys/syscall.h>
+static int g_close_watch_fd = -1, g_close_calls = 0; static bool g_close_inject_eintr = false;
+extern "C" int close(int fd) {
+  long r = syscall(SYS_close, fd);
+  if (fd >= 0 && fd == g_close_watch_fd) { g_close_calls++; if (g_close_inject_eintr) { g_close_inject_eintr = false; errno = EINTR; return -1; } }
+  return (int)r;
+}
+
 // ---------------------------------------------------------------- lifetime registry
 static std::set<const void*> g_live;
 static long g_births = 0, g_deaths = 0;
@@ -43,6 +54,7 @@ template <int Tag> struct Tr {
   bool operator>(const Tr& o) const { return o < *this; }
   bool operator<=(const Tr& o) const { return !(o < *this); }
   bool operator>=(const Tr& o) const { return !(*this < o); }
+  NOP_STRUCTURE(Tr, v);      // serializable (the value only), so that the decoders' construct / move / destroy traffic is visible to the registry
 };
 using TA = Tr<0>;
 struct CSrc { int v; };                      // converts to TB only
@@ -512,6 +524,15 @@ static void c15_transfer() {
       int rel = m.release(); if (fcntl(rel, F_GETFD) < 0) rep().violation("C15:filehandle-release-closed", "a released descriptor was closed", ""); ::close(rel); }
     if (fcntl(raw, F_GETFD) >= 0) rep().violation("C15:filehandle-not-closed", "descriptor still open after its UniqueFileHandle was destroyed", "");
     rep().count("c15_real_fd_cases"); rep().note(hash_str("real-fd"), true);
+    // an interrupted close(): the kernel has released the descriptor although close() reports EINTR; the owner must not close that number again
+    for (int how = 0; how < 3; how++) {
+      int fd = ::open("/dev/null", O_RDONLY); if (fd < 0) break;
+      g_close_watch_fd = fd; g_close_calls = 0; g_close_inject_eintr = true;
+      { nop::UniqueFileHandle h{fd}; if (how == 1) h.close(); else if (how == 2) { nop::UniqueFileHandle other = nop::UniqueFileHandle::Open("/dev/null", O_RDONLY); h = std::move(other); } }
+      int calls = g_close_calls; g_close_watch_fd = -1; g_close_inject_eintr = false;
+      rep().count("c15_interrupted_close_cases");
+      if (calls != 1) rep().violation("C15:filehandle-closed-twice-after-EINTR", fmt("close() on the owned descriptor was interrupted (EINTR, descriptor already released): the UniqueFileHandle called close() %d times on that descriptor number (%s)", calls, how == 0 ? "destruction" : how == 1 ? "close()" : "move-assignment over it"), "");
+    }
     // descriptor 0 is a valid descriptor (a process started with stdin closed gets it from open/accept/dup): in a forked child with fd 0 closed,
     // a UniqueFileHandle owning descriptor 0 must close it on destruction, close() and move-assignment over it
     { pid_t pid = fork();
